@@ -2653,25 +2653,28 @@ pub mod verif_hooks {
         }
     }
 
-    /// serde_json-free persisted round trip: `PersistentQueryOrigin` → its serialized edge keys →
-    /// back (the harness supplies the serializer).
+    /// The persisted form of a derived origin (serialize it, deserialize it, then
+    /// [`persisted_decode`]).
     #[cfg(feature = "persistence")]
-    pub fn persisted_roundtrip<F>(untracked: bool, edges: &[RawEdge], via: F) -> Decoded
-    where
-        F: FnOnce(&super::persistence::PersistentQueryOrigin) -> super::persistence::PersistentQueryOrigin,
-    {
+    #[derive(serde::Serialize, serde::Deserialize)]
+    #[serde(transparent)]
+    pub struct PersistedOrigin(super::persistence::PersistentQueryOrigin);
+
+    #[cfg(feature = "persistence")]
+    pub fn persisted_new(untracked: bool, edges: &[RawEdge]) -> PersistedOrigin {
         use super::persistence::PersistentQueryOrigin;
         let it = edges.iter().copied().map(mk).collect::<Vec<_>>();
-        let p = if untracked {
+        PersistedOrigin(if untracked {
             PersistentQueryOrigin::derived_untracked(it)
         } else {
             PersistentQueryOrigin::derived(it)
-        };
-        let q = via(&p);
-        decode(&OriginAndExtra::new(q, QueryRevisionsExtra(None)))
+        })
     }
+
     #[cfg(feature = "persistence")]
-    pub use super::persistence::PersistentQueryOrigin;
+    pub fn persisted_decode(p: PersistedOrigin) -> Decoded {
+        decode(&OriginAndExtra::new(p.0, QueryRevisionsExtra(None)))
+    }
 
     /// `PackedQueryEdge::new` on a raw (possibly tagged) edge: `Some((index, metadata))`.
     pub fn packed_new(index: u32, generation: u32, ingredient_raw: u32) -> Option<(u32, u32)> {
